@@ -206,7 +206,7 @@ func c19Run(c *Ctx) {
 		}
 	}
 	// 2. outcome classes x stdin shapes x input calls
-	lines := []string{"x", " padded ", "", "১২", "a b", "\ttab\t", "last"}
+	lines := []string{"x", " padded ", "", "১২", "a b", "\ttab\t", "last", strings.Repeat("long ", 1000), strings.Repeat("\u09b2\u09ae\u09cd\u09ac\u09be", 400)}
 	r := c.Rand("stdin")
 	type prog struct{ name, body string } // %I = input call sites are inside
 	inp := func(prompt string) string {
